@@ -145,13 +145,16 @@ func determineCompletionContext(content string, pos protocol.Position, ctx *prot
 		return ContextDate
 	}
 
-	if strings.HasPrefix(line, directiveAccount) {
+	// A directive's argument starts behind the keyword: while the cursor is still inside the
+	// keyword the text typed so far is not an account or commodity name.
+	byteCol := lsputil.UTF16OffsetToByteOffset(line, int(pos.Character))
+	if strings.HasPrefix(line, directiveAccount) && byteCol >= len(directiveAccount) {
 		return ContextAccount
 	}
-	if strings.HasPrefix(line, directiveCommodity) {
+	if strings.HasPrefix(line, directiveCommodity) && byteCol >= len(directiveCommodity) {
 		return ContextCommodity
 	}
-	if strings.HasPrefix(line, directiveApplyAccount) {
+	if strings.HasPrefix(line, directiveApplyAccount) && byteCol >= len(directiveApplyAccount) {
 		return ContextAccount
 	}
 
